@@ -848,6 +848,9 @@ class Symex:
         if isinstance(n, ast.Yield):
             self.frames[-1].setdefault("$yield", []).append(self.ev(n.value) if n.value is not None else None)
             return None
+        if isinstance(n, ast.YieldFrom):
+            self.frames[-1].setdefault("$yield", []).extend(self.iterate(self.ev(n.value), n))
+            return None
         if isinstance(n, ast.Slice):
             return slice(self.ev(n.lower) if n.lower else None, self.ev(n.upper) if n.upper else None,
                          self.ev(n.step) if n.step else None)
